@@ -21,7 +21,7 @@ RULE = ('Fixed-shape unstructured meshes (2x2 and 3x2 lattices with drawn diagon
         'displacement with at least one constrained and one unconstrained dof (and evolved state for path-dependent models).')
 ASSUMPTIONS = ['jax.hessian of the library energy is the reference second derivative (AD of the energy as a whole vs the element-wise assembly path)',
                'single-block / dynamics factories are called inside one compiled function per (factory, material, option, mesh shape) with traced coordinates and constants; pressure-projection and multi-block factories are built eagerly per case (they need concrete values)',
-               'tolerance max|K-H| <= 1e-9 max|H|, block split 1e-12 relative']
+               'tolerance max|K-H| <= 1e-9 max|H|, symmetry 1e-9 relative, block split 1e-12 relative']
 
 _C = {}
 
@@ -226,7 +226,8 @@ def check(case):
         if err > 1e-9 * hmax:
             fails.append(Failure('stiffness-vs-hessian', '%s: max|K - H| = %.3e max|H| (state %s)' % (what, err / hmax, 'evolved' if evolved else 'virgin')))
         asym = onp.abs(K - K.T).max()
-        if asym > 1e-10 * onp.abs(K).max():
+        # plastic models differentiate through an iterative root solve: symmetric only to the accuracy of that solve (same bound as K - H)
+        if asym > 1e-9 * onp.abs(K).max():
             fails.append(Failure('symmetry', '%s: max|K - K^T| = %.3e max|K|' % (what, asym / onp.abs(K).max())))
     if case['factory'] == 'multi' and not case.get('hetero') and not fails:
         S = get_fns(('single', case['model'], case['mode'], case['proj'], case['order'], max(qdeg, 1)))
